@@ -8,7 +8,7 @@ import warnings
 from .common import Check, cmat, fmt_ints, fmt_matrix, kv
 
 THEOREMS = [
-    "PackVal.validate_ok_iff", "PackVal.accepts_iff_validate", "PackVal.mult_check_suffices",
+    "PackVal.validate_ok_iff", "PackVal.accepts_iff_validate", "PackVal.dtype_exists", "PackVal.mult_check_suffices",
     "PackVal.bins_contiguous_iff", "PackVal.overlap_loop_iff_pairwise", "PackVal.validate_no_oob",
     "PackVal.toStr_tokens", "PackVal.fromStr_toStr", "PackVal.fromStr_validates",
 ]
@@ -105,6 +105,8 @@ def impl_validate(cx: Ctx, p) -> str:
         cx.space.validate(p)
     except (ValueError, TypeError) as e:
         return err_kind(e)
+    except Exception as e:  # noqa: BLE001 - anything else (IndexError, OverflowError, ...) is a rejection of its own kind
+        return "other:" + type(e).__name__
     return "ok"
 
 
@@ -355,7 +357,7 @@ def decode_cases(ck: Check, quick):
     from moptipyapps.binpacking2d.packing import Packing
     rng = ck.rng
     out = []
-    for k in range(30 if quick else 400):
+    for k in range(40 if quick else 400):
         W, H, items = gen_random_instance(rng, quick)
         try:
             cx = Ctx(W, H, items)
@@ -388,7 +390,7 @@ def base_cases(ck: Check):
                 [[1, 2, 0, 0, 3, 2], [1, 1, 10 ** 12 - 3, 0, 10 ** 12, 2]], 2))
     out.append(("boundary", Ctx(3, 10 ** 9 + 1, [[3, 2, 1], [1, 1, 2]]),
                 [[1, 1, 0, 10 ** 9 - 1, 3, 10 ** 9 + 1], [2, 1, 0, 0, 1, 1], [2, 1, 2, 0, 3, 1]], 1))
-    for k in range(150 if quick else 2500):
+    for k in range(250 if quick else 2500):
         big = (k % 5 == 4)
         W, H, items, rows, nb = gen_layout(rng, quick, big)
         out.append(("layout-big" if big else "layout", Ctx(W, H, items), rows, nb))
@@ -403,7 +405,7 @@ def exhaustive_cases(ck: Check):
     row_space = list(itertools.product(range(4), repeat=6))
     for k, (W, H, items) in enumerate(((2, 2, [[1, 2, 1], [2, 1, 1]]), (3, 2, [[1, 2, 1], [3, 1, 1]]), (2, 2, [[1, 1, 2]]))):
         cx = Ctx(W, H, items)
-        for _ in range(12000 if quick else 250000):
+        for _ in range(20000 if quick else 250000):
             a, b = rng.choice(row_space), rng.choice(row_space)
             yield "exh-slice", cx, [list(a), list(b)], max(a[1], b[1])
         # the structured sub-cube that contains every accepted matrix: ids 1..2, bins 1..2, all coordinates
@@ -475,6 +477,17 @@ def streams(ck: Check) -> None:
         ck.spec(d.tolist() == rows and d.n_bins == nb and impl_validate(cx, d) == "ok", "copy_differs",
                 "copy(dest, y) does not make dest a valid packing equal to y", {"W": cx.W, "H": cx.H, "items": cx.items,
                                                                               "rows": rows, "n_bins": nb})
+
+    def add_lenient(stream, cx, text):
+        """texts only numpy's lenient parser reads (not modelled): whatever from_str returns must be feasible"""
+        try:
+            q = cx.space.from_str(text)
+        except ValueError:
+            ck.count("fs-lenient:ERR")
+            return
+        ck.count("fs-lenient:ok")
+        ops.append(val_line(cx, [[int(v) for v in r] for r in q.tolist()], int(q.n_bins), str(q.dtype), q.instance is cx.inst))
+        expect.append(("val-of-parsed", stream, "ok", (cx, q.tolist(), int(q.n_bins), str(q.dtype), True, "from_str result (lenient text)")))
 
     def add_fs(stream, cx, text):
         try:
@@ -562,6 +575,12 @@ def streams(ck: Check) -> None:
             add_fs(stream, cx, ";".join(toks + ["1"]))
             add_fs(stream, cx, ";".join(toks + toks[:6]))
             add_fs(stream, cx, ";".join(toks[:6]))
+            add_lenient(stream, cx, " ; ".join(toks))
+            add_lenient(stream, cx, text + ";")
+            add_lenient(stream, cx, text + ";zzz")
+            add_lenient(stream, cx, ";".join("+" + t for t in toks))
+            add_lenient(stream, cx, ";".join(toks[6:] + toks[:6]))          # rows rotated: still a packing
+            add_lenient(stream, cx, ";".join(reversed(toks)))
             bad = list(toks)
             bad[rng.randrange(len(bad) - 1)] = rng.choice(["x", "", "1x", "--1"])
             add_fs(stream, cx, ";".join(bad))
@@ -604,5 +623,36 @@ def check(ck: Check) -> None:
         "tokenizer is strict; only wrong-count / garbage texts (both reject) are compared",
         "np.nditer over a C-contiguous Packing yields the values row by row; str() of an integer scalar is its decimal form",
     ]
+    ck.not_proved += [
+        "np.fromstring's parser is external: the Lean round trip is proved at character level for the model's own strict "
+        "tokenizer (splitSemi/String.toInt?); that numpy reads to_str output to the same values is correspondence-checked only",
+        "values that do not fit the packing's dtype cannot occur in a real Packing; the model quantifies over unbounded Int rows",
+        "isinstance(x, Packing) / isinstance(x.n_bins, int) (TypeError paths) are not modelled",
+        "matrices of dimension other than 2 (x.ndim != 2) are not representable in the model's list-of-rows packing",
+    ]
     ck.lean(["Props.C04"], THEOREMS)
     streams(ck)
+
+
+def replay(path: str) -> int:
+    """Re-run the cases of a replay file against the real validator and the Lean specification."""
+    import json
+    from .common import Check
+    ck = Check("C04", "quick", 0)
+    obj = json.load(open(path))
+    bad = 0
+    for v in obj.get("violations", []):
+        c = v["case"]
+        if "rows" not in c or "…" in c["rows"]:
+            print("not replayable (truncated):", v["key"])
+            continue
+        cx = Ctx(c["W"], c["H"], c["items"])
+        dt, own, nb = c.get("dtype", cx.dt), c.get("own_instance", True), c["n_bins"]
+        p = mk_packing(cx, c["rows"], nb, dt, own)
+        verdict = impl_validate(cx, p) if p is not None else "not-representable"
+        out = ck.model([val_line(cx, c["rows"], nb, dt, own)])[0]
+        acc = kv(out).get("acc") == "true"
+        agree = (verdict == "ok") == acc
+        bad += 0 if agree else 1
+        print(f"{v['key']}: real validate -> {verdict}; Lean model/spec -> {out}; {'agree' if agree else 'VIOLATION reproduced'}")
+    return 1 if bad else 0
